@@ -1,28 +1,31 @@
 """Coordinator tool: apply each confirmed seeded mutation to /repo, run the property's quick check,
 undo it, and record the verdict in /verif/seeded/<id>/meta.json (detected_by).  Sequential on purpose."""
 import json, os, subprocess, sys, glob, re, time, shutil
-names = sys.argv[1:] or sorted(os.path.basename(d.rstrip("/")) for d in glob.glob("/verif/seeded/*/"))
+ROOT = os.path.dirname(os.path.dirname(os.path.abspath(__file__)))      # a copy of /verif can run its own sweep ...
+REPO = os.environ.get("SEED_REPO", "/repo")                              # ... against its own clone of /repo
+names = sys.argv[1:] or sorted(os.path.basename(d.rstrip("/")) for d in glob.glob(ROOT + "/seeded/*/"))
 for name in names:
-    d = f"/verif/seeded/{name}"
+    d = f"{ROOT}/seeded/{name}"
     meta = json.load(open(f"{d}/meta.json"))
     pid = meta["property"]
-    subprocess.run("git -C /repo checkout -- .", shell=True)
-    r = subprocess.run(f"git -C /repo apply {d}/patch.diff", shell=True, capture_output=True, text=True)
+    subprocess.run(f"git -C {REPO} checkout -- .", shell=True)
+    r = subprocess.run(f"git -C {REPO} apply {d}/patch.diff", shell=True, capture_output=True, text=True)
     if r.returncode != 0:
         print(name, "patch does not apply to /repo", r.stderr[-200:]); continue
     t0 = time.time()
     # the evidence files committed under /verif/evidence must come from runs on the unchanged tree: keep them aside
-    ev = f"/verif/evidence/{pid}.json"
+    ev = f"{ROOT}/evidence/{pid}.json"
     bak = ev + ".keep"
     if os.path.exists(ev):
         shutil.copy(ev, bak)
     try:
-        p = subprocess.run(f"./check {pid} --tier quick", shell=True, cwd="/verif", capture_output=True, text=True, timeout=1500)
+        p = subprocess.run(f"./check {pid} --tier quick", shell=True, cwd=ROOT, capture_output=True, text=True, timeout=1500,
+                           env=dict(os.environ, JADE_REPO=REPO, PYTHONPATH=f"{REPO}:{ROOT}"))
         out, rc = p.stdout + p.stderr, p.returncode
     except subprocess.TimeoutExpired:
         out, rc = "TIMEOUT", 124
     finally:
-        subprocess.run("git -C /repo checkout -- .", shell=True)
+        subprocess.run(f"git -C {REPO} checkout -- .", shell=True)
         if os.path.exists(bak):
             shutil.move(bak, ev)
     viol = re.findall(r"VIOLATION property=\S+ replay=(\S+)( no-failing-input-found)?", out)
